@@ -154,7 +154,7 @@ impl Prop for C01 {
         "C01"
     }
     fn rule(&self) -> String {
-        "cases = 1-8 client commands (QUERY/PREPARE/INIT_DB text payloads, SEND_LONG_DATA+EXECUTE raw payloads) with payload lengths from classes {1-16, 4086-4100, 8180-8196, 65533-65537, random<20000, k*(2^24-1)+d for k = 1, 2, 3 and sizes up to the 64 MiB the server advertises as max_allowed_packet} x a chunk schedule (one read, 1-byte reads, tiny reads, random sizes, exact messages, k messages + partial header, cuts inside headers; for >=16 MiB payloads 1-5 byte reads inside windows around every packet header), with the client either pipelining everything or (1 in 3) sending each command only after the previous reply; the enumerated large commands are followed by another command in half of the cases and are the last thing sent in the other half. Non-trivial = some read() boundary fell strictly inside a 4-byte packet header, or some command's bytes were delivered by >= 2 reads (measured from the transport's operation log). Distinct = distinct serialised case.".into()
+        "cases = 1-8 client commands (QUERY/PREPARE/INIT_DB text payloads, SEND_LONG_DATA+EXECUTE raw payloads) with payload lengths from classes {1-16, 4086-4100, 8180-8196, 65533-65537, random<20000, k*(2^24-1)+d for k = 1, 2, 3 and sizes up to the 64 MiB the server advertises as max_allowed_packet} x a chunk schedule (one read, 1-byte reads, tiny reads, random sizes, exact messages, k messages + partial header, cuts inside headers; for >=16 MiB payloads 1-5 byte reads inside windows around every packet header), with the client either pipelining everything or (1 in 3) sending each command only after the previous reply; the enumerated large commands are followed by another command in half of the cases and are the last thing sent in the other half; one enumerated conversation delivers a 120 000-byte (thorough: 300 000-byte) query in one-byte reads throughout. Non-trivial = some read() boundary fell strictly inside a 4-byte packet header, or some command's bytes were delivered by >= 2 reads (measured from the transport's operation log). Distinct = distinct serialised case.".into()
     }
     fn assumptions(&self) -> Vec<String> {
         vec!["payloads beyond 64 MiB (the limit the server advertises as max_allowed_packet) are not explored".into(), "the recording shim iterates all parameters of every execution".into()]
@@ -230,6 +230,16 @@ impl Prop for C01 {
                 v.push(self.big_case(sz, kind, sc, (i * 31 + sc) as u32 + 1));
             }
         }
+        // "for all partitions ... into read() results (1-byte reads ...)": one command delivered in
+        // more reads than any counter of "reasonable" reads per command would allow - 120 000
+        // (thorough: 300 000) one-byte reads, with a command pipelined behind it
+        let n = tier.pick(120_000usize, 300_000usize);
+        let mut conv = Conversation::new(
+            vec![Cmd::Ping, Cmd::Query { text: Blob::Text { seed: 77, len: n } }, Cmd::Query { text: Blob::text("SELECT after") }],
+            vec![Action::Result(Program::completed(3, 4)), Action::Result(Program::completed(1, 2))],
+        );
+        conv.sched = Schedule { sizes: vec![1], hot: vec![], big: 0, write_accept: vec![] };
+        v.push(Case { conv });
         v
     }
     fn exec(&self, case: &Case) -> Exec {
